@@ -1138,13 +1138,13 @@ def shrink(plan, want_sig, max_exec=200):
 # ---------------------------------------------------------------------------
 # check interface (see dst/main.py)
 # ---------------------------------------------------------------------------
-WALL_BUDGET = {'quick': 80, 'thorough': 1500}
+WALL_BUDGET = {'quick': 55, 'thorough': 1500}
 JOB_TIMEOUT = 2400
 
 
 def make_jobs(tier, seed):
-    n = 96 if tier == 'quick' else 2400
-    budget = 130 if tier == 'quick' else 450
+    n = 72 if tier == 'quick' else 2400
+    budget = 100 if tier == 'quick' else 450
     jobs = [{'wseed': H(seed, PROP, 'w', i), 'tier': tier, 'budget': budget}
             for i in range(n)]
     n_xv = 48 if tier == 'quick' else 960
